@@ -55,6 +55,7 @@ def parseEnding : List String → Option (Ending × List String)
   | "invalid" :: r => some (.invalid, r)
   | "oog" :: r => some (.oog, r)
   | "retbig" :: r => some (.retBig, r)
+  | "retmax" :: r => some (.retBig, r)   -- RETURN of exactly MaxCodeSize bytes: allowed size, unaffordable deposit
   | "rethuge" :: r => some (.retHuge, r)
   | "retcode" :: t :: r => do let t ← t.toNat?; pure (.retCode t, r)
   | _ => none
@@ -176,6 +177,10 @@ def step (st : St) (line : String) : St × String :=
       ({ st with w := w, idx := st.idx + 1 }, receiptStr rc)
     | _, _, _, _ => (st, "bad-op")
   | ["rend"] => (st, st.w.dumpScratch)
+  | ["fork", sched, h] =>
+    -- the fork schedule / height the implementation runs the next block under; the model takes the flags
+    -- it needs from the reset line
+    if (sched == "mainnet" || sched == "robin") && h.toNat?.isSome then (st, "ok") else (st, "bad-op")
   | ["dump"] => (st, st.w.dump)
   | _ => (st, "bad-op")
 
